@@ -214,7 +214,7 @@ def iter_runs(path, only_ids=None):
 
 
 # ------------------------------------------------------------------ monitors (the property, on the logged run)
-def monitor(run, spec):
+def monitor(run, spec, params=(60, 5)):
     """returns (list of (property-id, what), stats)"""
     bad = []
     size = spec["size"]
@@ -262,7 +262,33 @@ def monitor(run, spec):
             k = x["k"]
             if k in ("M", "L"):
                 vcci = dict((c["id"], c["cci"]) for c in x["ctx"]["view"])
+                vmap = dict((c["id"], c) for c in x["ctx"]["view"])
+                now, ttl = x["ctx"]["tick"], params[0]
+
+                def cls(r):
+                    failed = (r["first"] == 0) if r["tick"] == 0 else (now - r["tick"] > ttl)
+                    return "failed" if failed else ("waiting" if r["tick"] == 0 else "ok")
                 for q in x["reqs"]:
+                    if q["type"] in (1, 2) and q["shard"] in vmap:
+                        # the per-decision clauses of C02, evaluated on the context the round was computed from
+                        reps = vmap[q["shard"]]["reps"]
+                        kinds = [cls(r) for r in reps]
+                        nok = kinds.count("ok")
+                        if not nok >= len(reps) // 2 + 1:
+                            bad.append(("C02", "%s request for shard %d although only %d of %d members are healthy" % (RT[q["type"]], q["shard"], nok, len(reps))))
+                        if q["raft"] not in [r["addr"] for r in reps if cls(r) == "ok"]:
+                            bad.append(("C02", "%s request for shard %d sent to NodeHost %d which runs no healthy member" % (RT[q["type"]], q["shard"], q["raft"])))
+                        if q["type"] == 1:
+                            tgt = [r for r in reps if r["id"] == q["members"][0]]
+                            if not tgt or cls(tgt[0]) != "failed":
+                                bad.append(("C02", "DELETE request for shard %d targets replica %d which is not classified failed" % (q["shard"], q["members"][0])))
+                        else:
+                            if "waiting" in kinds:
+                                bad.append(("C02", "ADD request for shard %d while a member is waiting to be started" % q["shard"]))
+                            if q["addrs"] and q["addrs"][0] in [r["addr"] for r in reps]:
+                                bad.append(("C02", "ADD request for shard %d onto NodeHost %d which already hosts a member" % (q["shard"], q["addrs"][0])))
+                            if q["members"] and (q["members"][0] == 0 or q["members"][0] in [r["id"] for r in reps]):
+                                bad.append(("C02", "ADD request for shard %d with replica id %d (zero or already a member)" % (q["shard"], q["members"][0])))
                     if q["type"] in (1, 2) and q["ccid"] != vcci.get(q["shard"]):
                         bad.append(("C02", "%s request for shard %d carries membership version (conf change id) %d, the view it was computed from has version %s" % (
                             RT[q["type"]], q["shard"], q["ccid"], vcci.get(q["shard"]))))
@@ -511,7 +537,7 @@ def run(ck):
                 ck.violation("closed-loop run could not be executed (infrastructure): " + r["abort"],
                              {"kind": "infra", "spec": spec}, found_input=False)
             else:
-                bad, _ = monitor(r, spec)
+                bad, _ = monitor(r, spec, params or (60, 5))
                 for (pid, what) in bad:
                     if pid != "C01" and (pid, what[:40]) not in reported and len(ck.violations) < 12:
                         reported.add((pid, what[:40]))
@@ -522,7 +548,7 @@ def run(ck):
                     ck.violation("Drummer DB / leader loop failed in a closed-loop run: %s (run %d)" % (r["abort"], r["id"]),
                                  {"kind": "abort", "spec": spec, "trace_tail": [l[:400] for l in r["raw"] if l.startswith("E ")][-40:]})
             return
-        bad, st = monitor(r, spec)
+        bad, st = monitor(r, spec, params or (60, 5))
         for k, v in st.items():
             if isinstance(v, int):
                 agg[k] = agg.get(k, 0) + v
